@@ -7,7 +7,7 @@ from . import common as K
 from . import boundsrules as BR
 from .c10 import typestate_function
 
-CONFIGS_QUICK = ["A", "C"]
+CONFIGS_QUICK = ["A", "C", "E"]
 CONFIGS_THOROUGH = ["A", "B", "C", "D", "E"]
 
 EXPLANATION = (
@@ -25,12 +25,14 @@ EXPLANATION = (
     "late as the limit allows' (optimality).")
 
 RULES = {
+    "C18-N": "no integer on this property's data path is narrowed by an implicit conversion (parameter handed to a narrower parameter, stored in a narrower field, or a narrow field behind a wider accessor)",
     "C18-K1": "SCPI_ErrorTranslate returns a non-NULL string literal on every path (fallback description in the default arm)",
     "C18-K2": "bytes written between the quotes never exceed the 255-character budget: conservation invariant, no unsigned wrap of the budget",
     "C18-K3": "opening quote first, every emitted inner quote doubled, closing quote on every path",
     "C18-K4": "SYSTem:ERRor? pops one entry, prints it, then releases its text, on every path",
     "C18-K6": "(static-heap build) the text handed to the response is the stored one: copies are consecutive pieces of the pushed text, the read-out measures each part up to the end of the heap (shared with C20-H2 / C20-H1c)",
     "C18-K7": "the ';' between description and text is written exactly for part index 1 (a text stored in two heap pieces gets no second separator)",
+    "C18-K8": "(builds without strndup) the stored copy of a device-dependent text is terminated by the duplicator itself and stays inside its allocation (shared with C10-Q7)",
     "C18-K5": "description/length part arrays are indexed below their declared size",
 }
 
@@ -268,11 +270,17 @@ def run(ck, fb, tier):
         ck.config = cfg
         prog = fb[cfg]
         S = K.summaries(prog)
+        if prog.fn("OUR_strndup") is not None:
+            from . import c10
+            c10.rule_q7(ck, prog, S, rule="C18-K8")
+        if cfg == "E" and tier != "thorough":
+            continue                     # the c89 build contributes its own duplicator; the rest equals configuration A
         rule_k1(ck, prog)
         rule_k2_k5(ck, prog, cfg)
         rule_k3(ck, prog, S)
         rule_k4(ck, prog, S, cfg)
         rule_k7(ck, prog, S)
+        K.narrowing_rule(ck, prog, "C18-N", lambda f_: f_.relfile.endswith(("error.c", "fifo.c")) or f_.name in ("SCPI_ResultError", "SCPI_SystemErrorNextQ", "OUR_strndup", "scpiheap_strndup"))
         if cfg == "C":
             from . import c20
             c20.rule_h1_h2(K.RuleProxy(ck, {"C20-H2": "C18-K6", "C20-H1c": "C18-K6"}), prog)
